@@ -26,7 +26,7 @@ func main() {
 	if err != nil {
 		ev.Fatal("setup: %v", err)
 	}
-	defer os.RemoveAll(g.hsmDir)
+	cleanup := func() { os.RemoveAll(g.hsmDir) } // run.Finish exits the process, so no defer
 
 	maxLen := run.Pick(2, 3)
 	lists, stats := enumerateLists(maxLen)
@@ -126,5 +126,7 @@ func main() {
 	run.Assume("C27: the enumeration signs through a SignFunc over the same keys held in memory (derive + Sign, password checked like the HSM); the real HSM.XSign is run on a few templates per account kind and must give byte-identical transactions")
 	run.Assume("C27: the account's programs are the ones account.Manager.CreateAddress returned; external recipient programs are built byte-by-byte from the key hash")
 	run.Assume("C27: lists in which a generic spend of an (account, asset) precedes a spend of a particular output of the same (account, asset) are outside the domain (the generic reservation may legitimately take that output first)")
+	run.Assume("C27: one reservation per source: spend_account actions of one account and asset are merged by MergeSpendAction; two veto actions on one account are not merged and are outside the domain (the second reservation can be refused with 'already reserved' although the sum is funded)")
+	cleanup()
 	run.Finish()
 }
